@@ -198,6 +198,8 @@ def make_pool_class(sched):
                                 sched.task_of[w] = i + 1
                                 results[i] = fn(tasks[i])
                                 sched.boundary(w, "end", w, i + 1)
+                        except StopIteration:
+                            pass                         # CPython: mapstar is list(map(fn, chunk)) - the chunk just ends
                         except Exception as e:  # noqa
                             failures.append(e)           # CPython: the rest of the chunk is abandoned
                         except BaseException as e:  # noqa
